@@ -627,19 +627,30 @@ def r_offset_book(ctx):
                      "gains, new bytes are appended at `filled`, and the cursor's stream offset does not change")
     prog = ctx.prog
     # premise: nobody else writes the bookkeeping fields or moves buffer contents
+    from rules.common import only_called_under
     writers = {}
     movers = set()
+
+    def confined(b, roots):
+        # a private helper reachable only through the named functions counts as part of them
+        return only_called_under(prog, b, roots)
     for b in iter_bodies(prog):
         root = prog.function_root(b)
         rn = root.name if root is not None else b.name
         for fld in ("buffer_offset", "buffered_byte_length", "internal_buffer_position"):
             for bb, i, st in b.statements():
                 if st["k"] == "assign" and any(e["k"] == "field" and e.get("name") == fld for e in st["place"]["proj"]):
-                    writers.setdefault(fld, set()).add(rn)
+                    allowed = {"buffer_offset": ("ensure_data_read", "with_capacity", "new"),
+                               "buffered_byte_length": ("ensure_data_read", "private_read", "with_capacity", "new")}.get(fld)
+                    if allowed is not None and confined(b, allowed):
+                        rn2 = "ensure_data_read" if rn not in allowed else rn
+                        writers.setdefault(fld, set()).add(rn2)
+                    else:
+                        writers.setdefault(fld, set()).add(rn)
         for cb, t, c in b.calls():
             if c is not None and strip_generics(c["path"]) in ("core::slice::copy_within", "core::slice::rotate_left", "core::slice::rotate_right", "core::slice::swap",
                                                                 "core::slice::copy_from_slice", "core::slice::reverse"):
-                movers.add(rn)
+                movers.add("ensure_data_read" if confined(b, ("ensure_data_read",)) else rn)
     rep.instance("writers: %s; data movers: %s" % ({k: sorted(v) for k, v in sorted(writers.items())}, sorted(movers)))
     rep.oblige(writers.get("buffer_offset", set()) <= {"ensure_data_read", "with_capacity"}, "BOOK|writers|buffer_offset", "src/tag_iterator.rs",
                "buffer_offset is written outside ensure_data_read: %s" % sorted(writers.get("buffer_offset", ())))
@@ -672,6 +683,21 @@ def r_offset_book(ctx):
                     partial.append(strip_generics(rty.get("path", "")).split("::")[-1])
         carried = any("field:buffer" in local_sources(b, st["rv"]["op"]["place"]["local"]) for st in ws
                       if st["rv"]["k"] == "use" and st["rv"]["op"].get("k") in ("copy", "move"))
+        if not carried:
+            # the old contents may also reach the new allocation through a &mut call (extend_from_slice(&self.buffer), copy_from_slice, ..)
+            COPIERS = ("std::vec::Vec::extend_from_slice", "std::iter::Extend::extend", "core::slice::copy_from_slice", "core::slice::clone_from_slice",
+                       "std::convert::From::from", "std::slice::to_vec", "core::slice::to_vec", "std::clone::Clone::clone", "std::borrow::ToOwned::to_owned")
+            for cb, t, c in b.calls():
+                if c is None or strip_generics(c["path"]) not in COPIERS:
+                    continue
+                for a in t["args"]:
+                    if a.get("k") in ("copy", "move"):
+                        src = local_sources(b, a["place"]["local"])
+                        for e in a["place"]["proj"]:
+                            if e["k"] == "field" and e.get("name"):
+                                src.add("field:" + e["name"])
+                        if "field:buffer" in src:
+                            carried = True
         rep.instance("%s replaces the buffer: contents carried over=%s, partial slices of the old buffer=%s" % (rn, carried, partial))
         rep.oblige(carried and not partial, "BOOK|realloc|%s" % rn, b.span,
                    "%s replaces the buffer without carrying every byte over at its index (%s)" % (rn, "copies only a %s of it" % "/".join(partial) if partial else "old contents not copied"))
@@ -1065,9 +1091,10 @@ def r_recover_stretch(ctx):
     from rules import iterator as it
     pvh = find_one(prog, "TagIterator::peek_valid_tag_header")
     bad = []
+    from rules.common import only_called_under
     for b in it._reachable_fns(prog, pvh):
         for bd in [b] + prog.closures_of(b.path):
-            if it._field_writes(bd, "internal_buffer_position") and b.name not in ("ensure_data_read",):
+            if it._field_writes(bd, "internal_buffer_position") and not only_called_under(prog, b, ("ensure_data_read",)):
                 bad.append(b.name)
     rep.instance("functions reachable from the look-ahead that write the position: %s" % (sorted(set(bad)) or "only ensure_data_read"))
     rep.oblige(not bad, "STRETCH|lookahead-pure", pvh.span, "the header look-ahead moves the cursor (position written by %s): the distance computed by try_recover is not the bytes skipped" % sorted(set(bad)))
